@@ -677,6 +677,36 @@ class FakeLoop:
     def stop(self):
         self._stopping = True
 
+    def run_in_executor(self, executor, func, *args):
+        """asyncio's hand-off to a worker thread: the function runs in a thread of its own (managed by the scheduler
+        like any other), concurrently with the loop; returns a minimal future-like object"""
+        import threading as _th
+        box = {"done": False, "result": None, "exc": None}
+
+        def runner():
+            try:
+                box["result"] = func(*args)
+            except BaseException as e:  # noqa
+                box["exc"] = e
+            box["done"] = True
+        t = _th.Thread(target=runner, name="loop-executor")
+        t.daemon = True
+        t.start()
+
+        class _Fut:
+            def done(self_inner):
+                return box["done"]
+
+            def result(self_inner):
+                t.join()
+                if box["exc"] is not None:
+                    raise box["exc"]
+                return box["result"]
+
+            def add_done_callback(self_inner, cb):
+                pass
+        return _Fut()
+
     def add_reader(self, fd, cb, *args):
         self._readers[fd] = (cb, args)
         sock = FakeNet.by_fd.get(fd)
